@@ -48,6 +48,22 @@ def cookie_{L}(doc: str) -> bool:
 def replay_cookie_{L}(doc):
     return _api_nowiki(doc[8:{8 + L}])
 ''')
+    # content holding a self-closing nowiki tag (help pages that explain the tag): x <nowiki/> y with symbolic x, y;
+    # tags concrete, fillers symbolic one-character strings (pinned symbolic tag characters make the (?i) patterns fork)
+    for tag, inner in (() if quick else (("slash", "<nowiki/>"), ("slashsp", "<nowiki />"))):
+        out.append(f'''
+def cookie_inner_{tag}(x: str, y: str) -> bool:
+    """
+    pre: len(x) == 1 and len(y) == 1 and x[0] in ALPHA and y[0] in ALPHA
+    post: _
+    """
+    c = x + {inner!r} + y
+    return one_cookie(NW_OPEN + c + NW_CLOSE, len(c))
+
+
+def replay_cookie_inner_{tag}(x, y):
+    return _api_nowiki(x + {inner!r} + y)
+''')
     for L in range(0, (1 if quick else 2) + 1):
         n = 1 + 8 + L + 9 + 1
         body = " and ".join([f"doc[{9 + j}] in ALPHA" for j in range(L)] + ['doc[0] in "a \\n|=*"', f'doc[{n - 1}] in "a \\n|="'])
@@ -196,6 +212,53 @@ def n_cookie_passthrough(rep: C.Report) -> None:
         ob.detail += f"{type(e).__name__}: {e}"
 
 
+def preprocess_order(rep: C.Report) -> None:
+    """Ob6: in preprocess_text the paired-nowiki pass runs before the self-closing one (a self-closing tag inside a nowiki body
+    is content); z3 shows the order matters, the AST gives the order, a violation is replayed through expand()."""
+    from vf import passes as PS
+
+    ob = rep.add(C.Ob("Ob6 preprocess_text: paired nowiki bodies are saved before self-closing nowiki tags are replaced", "E2 z3 (regex overlap) + AST order", ["core.py:Wtp.preprocess_text"], "all strings (no length bound) for the overlap query"))
+    try:
+        tree = ast.parse(open(os.path.join(C.SRC, "core.py")).read())
+        fns = [f for q, f in AP.functions(tree) if q[-1] == "preprocess_text"]
+        if len(fns) != 1:
+            ob.verdict, ob.detail = C.NOT_ENCODABLE, "preprocess_text not found"
+            return
+        ps = PS.passes(fns[0])
+        paired = PS.find_pass(ps, ["<nowiki>x</nowiki>"], ["<nowiki/>"])
+        selfc = PS.find_pass(ps, ["<nowiki/>", "<nowiki />"], ["<nowiki>x</nowiki>"])
+        comment = PS.find_pass(ps, ["<!--x-->"], ["<nowiki/>"])
+        if not (paired and selfc and comment):
+            ob.verdict, ob.detail = C.NOT_ENCODABLE, f"passes not identified (paired={bool(paired)} self-closing={bool(selfc)} comment={bool(comment)})"
+            return
+        problems = []
+        for a, b, an, bn, doc in [(paired, selfc, "paired nowiki", "self-closing nowiki", "<nowiki>a<nowiki/>b</nowiki>"), (paired, comment, "paired nowiki", "comment removal", "<nowiki>a<!--c-->b</nowiki>")]:
+            r, wit = PS.order_matters(a, b)
+            ob.queries += 1
+            ob.paths += 1
+            ob.conditions += 1
+            ordered = a.line < b.line
+            ob.samples.append({"precedence": f"{an} before {bn}", "order_matters(z3)": r, "overlap_witness": wit, "ast_order_ok": ordered})
+            if ordered or r == "unsat":
+                ob.confirmed_conditions += 1
+            else:
+                problems.append((f"{bn} runs before {an}", doc))
+        if not problems:
+            ob.verdict = C.DISCHARGED
+            return
+        gen0, _ = xh.prepare(H)
+        mod = xh.load(gen0)
+        for why, doc in problems:
+            sig, bad, what = mod._api_nowiki(doc[len("<nowiki>") : -len("</nowiki>")])
+            if bad:
+                v = rep.violation(sig, f"{why}: {what}", {"doc": doc})
+                ob.verdict = C.VIOLATED if v.known is None else C.KNOWN
+                return
+        ob.detail = f"{[p[0] for p in problems]} but the replay documents stay inert -> inconclusive"
+    except Exception as e:  # noqa: BLE001
+        ob.detail += f"{type(e).__name__}: {e}"
+
+
 def run(rep: C.Report) -> None:
     quick = C.tier() == "quick"
     rep.explanation = (
@@ -222,6 +285,7 @@ def run(rep: C.Report) -> None:
         twins=False,
     )
     n_cookie_passthrough(rep)
+    preprocess_order(rep)
 
 
 def replay(r: dict) -> int:
